@@ -99,6 +99,9 @@ def run(case, ctx):
         ctx.violate(f"C04/construct:{base.type}/{sig}", f"{base!r}; {pterm}")
         return
     conc = M.is_concrete(pterm)
+    # history: the receiver has already been evaluated (on this very document object, with and
+    # without paths) before the modifier methods derive a new path from it
+    pre = call(base.get_data, doc), call(base.get_data, doc, True)
     fp_base = canon(base)
     mon.TRACER.protect(base, "receiver")
     ok, p = call(build.apply_mods, base, pterm)
@@ -182,6 +185,10 @@ def run(case, ctx):
                 gp = gp if (mu in (None, "all") and not conc) else [gp]
                 if ok2 and canon(list(gp)) != canon(vals):
                     ctx.violate(f"C04/values-differ/{sig}", f"with paths {vals!r}, without {gp!r}")
+    # the receiver still resolves as before the modifiers were derived from it
+    post = call(base.get_data, doc), call(base.get_data, doc, True)
+    if [(o[0], canon(o[1]) if o[0] else o[1].type) for o in pre] != [(o[0], canon(o[1]) if o[0] else o[1].type) for o in post]:
+        ctx.violate("C04/receiver-behaviour", f"the receiver resolves differently after modifiers were derived from it; {pterm}")
     for name, detail in mon.CONTRACTS.take():
         ctx.violate(f"C04/contract:{name}", detail)
     ctx.count(f"grid:{d}/{mu}/{order}")
